@@ -1,6 +1,7 @@
 """Configuration of ./check C15 (see pylib/props.py)."""
 CFG = dict(
         coq=["props/C15.vo"],
+        tie=["gen/Tie_C15.vo"],
         model_vo=["model/RefStore.vo", "model/Like.vo", "model/RefSql.vo", "gen/Extracted.vo"],
         extract="Ex_C15",
         level_text="Refinement theorem C15_refines: every sequence (any length, any names/values) of Set, SetWithLog, Get, "
